@@ -62,9 +62,51 @@ fn run_long(rec: &mut Rec, d: &Value) {
     }
 }
 
+/// lines longer than 2^29 pixels (dx > 0, 0 <= dy <= dx; nearly horizontal or nearly diagonal so that the cross product
+/// can be evaluated in 32 bits): ONE pass with next() - number of points, first and last point, a few sampled points
+fn run_xlong(rec: &mut Rec, d: &Value) {
+    let (s, e) = (pt_from(&d["s"]), pt_from(&d["e"]));
+    rec.begin(d.clone());
+    let r = catch(|| {
+        let m = (e.x as i64 - s.x as i64) as usize;
+        let want = [m / 4, m / 2, m / 2 + 1, 3 * (m / 4), m - 1];
+        let mut samples = vec![];
+        let mut n = 0usize;
+        let (mut first, mut last) = (None, None);
+        for p in Line::new(s, e).points() {
+            if n > m + 66 {
+                break;
+            }
+            if first.is_none() {
+                first = Some(p);
+            }
+            if want.contains(&n) {
+                samples.push(json!([n, p.x, p.y]));
+            }
+            last = Some(p);
+            n += 1;
+        }
+        (n, first, last, samples)
+    });
+    match r {
+        Ok((n, first, last, samples)) => {
+            rec.nontrivial();
+            let pj = |p: Option<Point>| p.map(pt_json).unwrap_or(json!([]));
+            rec.ev("xlong", json!({"s": pt_json(s), "e": pt_json(e), "np": n, "first": pj(first), "last": pj(last), "samples": samples}));
+        }
+        Err(p) => {
+            rec.note("panicked_cases");
+            rec.ev("panic", json!({"msg": p.msg, "loc": p.loc}));
+        }
+    }
+}
+
 fn run_case(rec: &mut Rec, d: &Value) {
     if d["k"].as_str() == Some("longline") {
         return run_long(rec, d);
+    }
+    if d["k"].as_str() == Some("xlongline") {
+        return run_xlong(rec, d);
     }
     assert_eq!(d["k"].as_str(), Some("line"), "unknown case kind {}", d["k"]);
     // optional stroke alignment (0 inside, 2 outside; it is documented as ignored for lines) and optional dotted stroke
@@ -188,6 +230,18 @@ fn main() {
     for (s, e) in [((0, 0), (50_000, 20_000)), ((-3, 7), (46_341, 1)), ((10, -10), (-70_000, 65_000)), ((0, 0), (0, 1_000_000)),
                    ((5, 5), (2_000_000, -1_999_999)), ((-1_000_000, -1_000_000), (1_000_000, 999_983))] {
         run_case(&mut rec, &json!({"k":"longline","s":[s.0, s.1],"e":[e.0, e.1]}));
+    }
+    // lines longer than 2^29 pixels (the Bresenham error terms need about 3 x the major delta: fine up to ~7 * 10^8)
+    {
+        let xl: &[((i32, i32), (i32, i32))] = if th {
+            &[((-7, 3), (536_870_906, 4)), ((0, 0), (600_000_001, 600_000_000)), ((5, -2), (700_000_000, 0)), ((-350_000_000, -350_000_000), (350_000_001, 349_999_999)),
+              ((1, 1), (536_870_914, 1)), ((0, 0), (650_000_003, 650_000_003))]
+        } else {
+            &[((-7, 3), (536_870_906, 4)), ((0, 0), (600_000_001, 600_000_000))]
+        };
+        for (s, e) in xl {
+            run_case(&mut rec, &json!({"k":"xlongline","s":[s.0, s.1],"e":[e.0, e.1]}));
+        }
     }
     let mut made = 0;
     while made < n_long {
